@@ -362,4 +362,37 @@ theorem gen_dateParms_eq_model (parms : List (List Char)) (t : Dict) (k : TzidsK
            cases (p == ['V', 'A', 'L', 'U', 'E', '=', 'D', 'A', 'T', 'E']) <;> rfl
        simp only [stepSpec, hp1, hp', Bool.false_eq_true, if_false, hv])
 
+/-! ### the whole of `_parse_date_value` -/
+
+/-- **the WHOLE translated `_parse_date_value`**: it fails (ValueError) exactly when the parameters are unacceptable (`dateParmsOk`), and
+    otherwise parses every `,`-separated value (`parse` = `parser.parse` with the caller's `ignoretz` / `tzinfos`, OverflowError turned
+    into ValueError) and attaches the zone `<lookup>(resolveTzid table parms)` by the translated attach statement -/
+theorem gen_parseDateValue_eq {D : Type} (parse : List Char → Py.R (D × Option Zone)) (value : List Char) (parms : List (List Char))
+    (t : Dict) (k : TzidsKind) (lk : Lookup) (hk : lookupOf k = some lk) :
+    Gen.rrsParseDateValue parse value parms t k =
+      match dateParmsOk parms with
+      | .error _ => .error .ValueError
+      | .ok _ => (ICal.splitOnChar ',' value).mapM (fun d =>
+          (match parse d with | .error .OverflowError => .error .ValueError | r => r) >>= fun date =>
+          (Gen.rrsAttach ((resolveTzid t parms).map (Zone.looked lk)) date.2) >>= fun z => .ok (date.1, z)) := by
+  unfold Gen.rrsParseDateValue
+  rw [gen_dateParms_eq_model parms t k lk hk]
+  cases dateParmsOk parms <;> rfl
+
+theorem mapM_ok {α β : Type} (g : α → β) : ∀ (l : List α), l.mapM (fun a => (.ok (g a) : Py.R β)) = .ok (l.map g)
+  | [] => rfl
+  | a :: l => by rw [List.mapM_cons, mapM_ok g l]; rfl
+
+/-- … in particular, for date texts that `parser.parse` reads as NAIVE datetimes (the compact form `__str__` prints: `date_text_read_back`),
+    every value gets exactly the zone of the line's TZID parameter (none without one): the model's `(value, parms)` + `tzidOf` -/
+theorem gen_parseDateValue_naive {D : Type} (f : List Char → D) (value : List Char) (parms : List (List Char))
+    (t : Dict) (k : TzidsKind) (lk : Lookup) (hk : lookupOf k = some lk) (hp : dateParmsOk parms = .ok ()) :
+    Gen.rrsParseDateValue (fun d => .ok (f d, none)) value parms t k =
+      .ok ((ICal.splitOnChar ',' value).map (fun d => (f d, (resolveTzid t parms).map (Zone.looked lk)))) := by
+  rw [gen_parseDateValue_eq _ value parms t k lk hk, hp]
+  simp only [bind, Except.bind]
+  have : ∀ z : Option Zone, Gen.rrsAttach z none = .ok z := by intro z; cases z <;> rfl
+  simp only [this]
+  exact mapM_ok _ _
+
 end RRuleStr
